@@ -5,8 +5,11 @@ import (
 	"crypto"
 	"crypto/ecdsa"
 	"crypto/ed25519"
+	"crypto/elliptic"
+	"crypto/rand"
 	"crypto/rsa"
 	"fmt"
+	cose "github.com/veraison/go-cose"
 	"hash/crc32"
 	"time"
 
@@ -595,6 +598,80 @@ func init() {
 			}
 		}, nil
 	}
+	// the same with key VALUES this process has never seen before (whatever is remembered per key value is remembered
+	// for the first time): fresh key pairs per execution
+	Scenarios["c02.key-object-reused-fresh-keys"] = func() (choice.Scenario, func() any) {
+		x, _ := realise(c02Claims()[0])
+		return func(c *choice.Ctx) {
+			alg := []string{"ES256", "EdDSA"}[c.Choose("alg", 2)]
+			type pair struct {
+				signer cose.Signer
+				pub    crypto.PublicKey
+			}
+			gen := func() (pair, bool) {
+				if alg == "ES256" {
+					k, err := ecdsa.GenerateKey(elliptic.P256(), rand.Reader)
+					if err != nil {
+						return pair{}, false
+					}
+					sg, err := cose.NewSigner(cose.AlgorithmES256, k)
+					return pair{sg, &k.PublicKey}, err == nil
+				}
+				pub, priv, err := ed25519.GenerateKey(rand.Reader)
+				if err != nil {
+					return pair{}, false
+				}
+				sg, err := cose.NewSigner(cose.AlgorithmEd25519, priv)
+				return pair{sg, pub}, err == nil
+			}
+			A, ok1 := gen()
+			B, ok2 := gen()
+			if !ok1 || !ok2 {
+				return
+			}
+			sign := func(p pair) []byte {
+				ev := &psatoken.Evidence{}
+				if ev.SetClaims(x) != nil {
+					return nil
+				}
+				t, _ := ev.ValidateAndSign(p.signer)
+				return t
+			}
+			tA, tB := sign(A), sign(B)
+			evA, e1 := psatoken.DecodeEvidenceFromCOSE(tA)
+			evB, e2 := psatoken.DecodeEvidenceFromCOSE(tB)
+			if e1 != nil || e2 != nil {
+				return
+			}
+			c02stats.StateStr("fresh-keys" + alg)
+			c02stats.Trans.Add(4)
+			var r1, r2 error
+			switch ka := A.pub.(type) {
+			case *ecdsa.PublicKey:
+				cur := *ka // the caller's key object, first holding A ...
+				r1 = evA.Verify(&cur)
+				cur = *(B.pub.(*ecdsa.PublicKey)) // ... then B
+				r2 = evB.Verify(&cur)
+			case ed25519.PublicKey:
+				cur := append(ed25519.PublicKey{}, ka...)
+				r1 = evA.Verify(cur)
+				copy(cur, B.pub.(ed25519.PublicKey))
+				r2 = evB.Verify(cur)
+			}
+			if r1 != nil || r2 != nil {
+				c.Failf("C02:key-object-reused:fresh-keys:genuine-rejected:"+alg, "%v / %v", r1, r2)
+			}
+			if evB.Verify(A.pub) == nil {
+				c.Failf("C02:verifies-with-other-key:key-object-reused:fresh-keys:"+alg, "the token signed by B verifies with (another object holding) the public key of A")
+			}
+			if evA.Verify(B.pub) == nil {
+				c.Failf("C02:verifies-with-other-key:key-object-reused:fresh-keys:"+alg, "the token signed by A verifies with the public key of B")
+			}
+			if evA.Verify(A.pub) != nil || evB.Verify(B.pub) != nil {
+				c.Failf("C02:genuine-token-stops-verifying:fresh-keys:"+alg, "a genuine token no longer verifies with its signer's key")
+			}
+		}, nil
+	}
 	// an Evidence is a plain struct: what is done to a by-value copy of it must not change what the original verifies
 	Scenarios["c02.evidence-copies"] = func() (choice.Scenario, func() any) {
 		seeds := map[string]*c02Seed{}
@@ -680,6 +757,7 @@ func init() {
 		exploreChoice(r, "c02.unusable-keys", -1, dl)
 		exploreChoice(r, "c02.evidence-copies", -1, dl)
 		exploreChoice(r, "c02.key-object-reused", -1, dl)
+		exploreChoiceOpts(r, "c02.key-object-reused-fresh-keys", -1, dl, 1)
 		exploreChoiceOpts(r, "c02.checksum-collisions", -1, dl, 1)
 		exploreChoice(r, "c02.many-reuses", -1, dl)
 		exploreChoice(r, "c02.incomplete-envelope-on-used-evidence", -1, dl)
